@@ -254,6 +254,13 @@ def judgeBuild (exact : Bool) (r out : List String) : Verdict :=
            | some (y, rw) => preserved x y && rw == "rw-same"
            | none => false)
         | _ => false
+      -- the known finding, exactly: everything but the '#'-seqid features is preserved (`Props/C14.parse_build_hash`)
+      let jHash := match out with
+        | "ok" :: _ :: rest =>
+          (match readReply rest with
+           | some (y, rw) => preserved (dropHash x) y && rw == "rw-same"
+           | none => false)
+        | _ => false
       let triv := x.features.isEmpty && x.seq.length < 70
       let reCls := if x.regionEnd == (x.seq.length : Int) then "re=len" else if x.regionEnd == 0 then "re=0"
                    else if x.regionEnd % 70 == 0 then "re=70k" else "re=other"
@@ -261,8 +268,9 @@ def judgeBuild (exact : Bool) (r out : List String) : Verdict :=
       { corr := same, judge := if inDom then some j else outsideVerdict same out,
         cls := (if triv then "triv:" else "") ++ (if exact then "buildx/" else "build/") ++ lenClass x.seq.length ++ "/" ++ reCls
                ++ (if x.features.any (fun f => f.attrs.isEmpty) then "/noattr" else "")
-               -- the known finding is tagged only when the reply is exactly the loss the model predicts
-               ++ (if hashSeqid x && !j && same then "/kf:C14-hash-seqid" else if hashSeqid x then "/hash-seqid" else "")
+               -- the known finding is tagged only when the property holds of the record WITHOUT its '#'-seqid features:
+               -- a second defect on such a record is a plain FAIL
+               ++ (if hashSeqid x && !j && jHash then "/kf:C14-hash-seqid" else if hashSeqid x then "/hash-seqid" else "")
                ++ (if same && out != m then "/other-wrap" else ""),
         detail := if same && (j || !inDom) then "" else lineOf (m.drop 2) }
 
